@@ -115,6 +115,11 @@ class Emitter:
             return f"ENV.obj({self.site()})"
         if op == "next":
             return f"next({x[1]}, -1)"
+        if op == "slc":
+            # a slice, as the index of a subscript target only: o[a:b] = v.  (The traced twin keeps
+            # the index in a temporary: there it is spelt slice(a, b).)
+            lo, hi = self.e(x[1]), self.e(x[2])
+            return f"slice({lo}, {hi})" if self.traced else f"{lo}:{hi}"
         if op == "lamd":
             # (lambda _q=(x := e): _q)(): a default value is evaluated by the enclosing function --
             # the assignment expression binds *its* x
@@ -751,7 +756,7 @@ def bound_names(fn):
         if x[0] in ("walrus", "lamd"):
             add(x[1], "walrus")
             ex(x[2])
-        elif x[0] in ("add",):
+        elif x[0] in ("add", "slc"):
             ex(x[1])
             ex(x[2])
         elif x[0] in ("call",):
